@@ -174,7 +174,9 @@ def set (o : FOps) (r : TrackRows) : (f : Field) → f.ty → Res TrackRows
     (slotIndex i c.cues).bind fun k => setCuesCol r { c with cues := setAt c.cues k q }
   | .key, k =>
     let td := colTrack r
-    (setTrackCol r { td with key := k }).bind fun r' =>
+    -- C major (0) is held by track data as "no key"
+    let k' : Option UInt32 := k
+    (setTrackCol r { td with key := k'.bind fun x => if x = 0 then none else some x }).bind fun r' =>
       .ok { r' with mint := aset 4 (k.map Prim.s32) r'.mint }
   | .lastPlayedAt, t =>
     .ok { r with mstr := aset 12 (some (if t.isSome then [49] else [48])) r.mstr,
@@ -191,7 +193,9 @@ def set (o : FOps) (r : TrackRows) : (f : Field) → f.ty → Res TrackRows
   | .relativePath, p =>
     .ok { r with track := { r.track with path := some p, filename := some (getFilename p) },
                  mstr := aset 13 (getExtension (getFilename p)) r.mstr }
-  | .sampleCount, n => do
+  | .sampleCount, n0 => do
+    let n0' : Option UInt64 := n0
+    let n : Option UInt64 := n0'.bind fun x => if x = 0 then none else some x   -- zero = no sample count
     let td := colTrack r
     let b := colBeat r
     let ov := colOvw r
@@ -202,7 +206,8 @@ def set (o : FOps) (r : TrackRows) : (f : Field) → f.ty → Res TrackRows
     if ov.entries.isEmpty then pure r3 else do
       let e ← ovwExtents o (n.getD 0) (td.sampleRate.getD F64.zero)
       setOvwCol r3 { ov with spe := e.2 }
-  | .sampleRate, v => do
+  | .sampleRate, v0 => do
+    let v : Option Bits := zeroNoneF v0                          -- zero = no sample rate
     let td := colTrack r
     let b := colBeat r
     let hi := colHires r
